@@ -403,3 +403,60 @@ def join_enum_tasks(seed, count=4, limit=None):
             t["enum_limit"] = limit
         tasks.append(t)
     return tasks
+
+
+def literal_chain_tasks(seed, count):
+    """Plans in which dependencies are routed through chains of literals (call -> lit -> lit -> call), some of
+    the literals also being arguments or having several neighbours, so that trivial-literal pruning bypasses
+    some and keeps others."""
+    rng = random.Random(f"litchain-{seed}")
+    tasks = []
+    for i in range(count):
+        nodes, edges = [], []
+        nid = 0
+
+        def add(kind):
+            nonlocal nid
+            nid += 1
+            nodes.append({"id": nid, "kind": kind})
+            return nid
+
+        heads = [add("call") for _ in range(rng.randint(1, 2))]
+        lits_all = []
+        tails = []
+        for h in heads:
+            prev = h
+            for _ in range(rng.randint(2, 3)):
+                l = add("lit")
+                lits_all.append(l)
+                edges.append([prev, l, "dep"])
+                prev = l
+            tails.append(prev)
+        # extra predecessors / consumers of some literals (keeps them from being trivial, or makes them arguments)
+        extra_calls = [add("call") for _ in range(rng.randint(0, 2))]
+        for c in extra_calls:
+            l = rng.choice(lits_all)
+            if c > l:
+                edges.append([l, c, rng.choice(["pos", "dep"])])
+        finals = []
+        for t in tails:
+            b = add("call")
+            edges.append([t, b, "dep"])
+            if rng.random() < 0.5 and lits_all:
+                l2 = rng.choice(lits_all)
+                if l2 != t:
+                    edges.append([l2, b, rng.choice(["pos", "dep"])])
+            finals.append(b)
+        # de-duplicate plain dependencies per pair
+        seen, e2 = set(), []
+        for e in edges:
+            if e[2] == "dep":
+                if (e[0], e[1]) in seen:
+                    continue
+                seen.add((e[0], e[1]))
+            e2.append(e)
+        scn = S.norm({"nodes": nodes, "edges": e2, "output": {"list": [{"node": b} for b in finals + extra_calls]},
+                      "slow": {str(h): rng.choice([0, 3, 8]) for h in heads}})
+        strat = rng.choice([{"kind": "random", "p": 0.3}, {"kind": "relyield", "q": 0.3}, {"kind": "pct", "depth": 2, "est_steps": 500}])
+        tasks.append(_mk(scn, rng, W=rng.choice([2, 3, 4]), sched=rng.choice(["default", "random"]), strat=strat, seed=seed * 65537 + i))
+    return tasks
